@@ -19,7 +19,8 @@ Reading guide (clauses of the property → theorems):
 * "rejects unknown sections and keys, missing required ones" → `unknown_section_rejected`,
   `missing_required_section_rejected`, `unknown_and_missing_keys_rejected` (config.New level),
   `unknown_key_rejected_one_struct`, `missing_required_key_rejected_one_struct`; `written_list_replaces_default`
-* "rule programs beyond the supported size" → `oversize_domain_set_rejected`, `compiled_within_limit`
+* "rule programs beyond the supported size" → `oversize_rejected` (total length, traffic routing),
+  `oversize_domain_set_rejected` (every builder), `compiled_within_limit`
 * "merges included files deterministically (the including file first, then each included file in
   listed order)" → `merge_order`, `merge_into_appends`
 * "rejecting circular includes" → `circular_include_rejected`, `include_of_visited_rejected`,
@@ -63,6 +64,18 @@ theorem parse_spells (K : Classes) (text : List Char) (ast : List ASection) (h :
     · simp at h
     · rename_i p hp
       exact ⟨p, by rw [hl, parseToks_sound hp], h⟩
+
+/-- **Lexer completeness: nothing written is dropped.** If the lexer accepts a text, the text is the
+concatenation, in order, of pieces each of which is either the exact spelling (`Tok.text`) of the
+next token returned, or trivia — one whitespace character, a text starting with `#`, or a text
+starting with `/*`.  (Together with `tokens_iff_tree` and `parse_spells`: every character of an
+accepted configuration is spelled by the tree or is whitespace/comment.) -/
+theorem lexer_accounts_for_every_character (K : Classes) (text : List Char) (ts : List Tok)
+    (h : lex K text = some ts) :
+    ∃ pieces : List (Option Tok × List Char),
+      text = pieces.flatMap (·.2) ∧ pieces.filterMap (·.1) = ts ∧
+      ∀ p ∈ pieces, (∀ t, p.1 = some t → p.2 = t.text) ∧ (p.1 = none → isTrivia K p.2) :=
+  lex_complete text ts h
 
 /-- **The lexer reads a rendering back.** For a well-formed class table, admissible tokens and
 admissible text between them (nothing, or skipped text starting with whitespace), the lexer
@@ -432,31 +445,40 @@ example :
   subst hc
   exact hget
 
-/-- **Oversized rule programs, the part that is decided in user space**: a program that lowers to a
-DOMAIN SET at a match-set index ≥ the table size is a build error, never an out-of-range access.
-(This is weaker than "more than `MaxMatchSetLen` match sets is an error": a longer program whose
-late sets are not domain sets is accepted by `BuildUserspace` / the DNS `Build` — correctly for DNS,
-where only domain sets index the fixed-size bitmap; for traffic routing the refusal happens in
-`BuildKernspace` by the kernel map update, outside this check.) -/
-theorem oversize_domain_set_rejected (emit : List Char → Option Emit) (maxLen : Nat) (rules : List (List Fn × Fn))
+/-- **Oversized rule programs are a build error (traffic routing, 51cbe59)** — at the strength the
+design promised: a program that lowers to more than `maxLen` match sets, the fallback entry
+included, is rejected, whatever its match sets are (exactly `maxLen` is accepted, see the example
+and the boundary ops of the tie). -/
+theorem oversize_rejected (emit : List Char → Option Emit) (maxLen : Nat) (rules : List (List Fn × Fn))
+    (k : Nat) (ds : List Nat) (hl : lowerRules emit rules 0 = .ok (k, ds)) (hbig : maxLen < k + 1) :
+    compileSize emit true maxLen rules = .error .oversize :=
+  compileSize_too_long emit maxLen rules k ds hl hbig
+
+/-- For every builder, also the DNS matchers (which have no total limit: only domain sets index
+their fixed-size bitmap): a DOMAIN SET at a match-set index ≥ the table size is a build error,
+never an out-of-range access. -/
+theorem oversize_domain_set_rejected (emit : List Char → Option Emit) (totalLimit : Bool) (maxLen : Nat)
+    (rules : List (List Fn × Fn))
     (k : Nat) (ds : List Nat) (hl : lowerRules emit rules 0 = .ok (k, ds)) (hbig : ∃ i ∈ ds, maxLen ≤ i) :
-    compileSize emit maxLen rules = .error .oversize :=
-  compileSize_oversize emit maxLen rules k ds hl hbig
+    compileSize emit totalLimit maxLen rules = .error .oversize :=
+  compileSize_oversize emit totalLimit maxLen rules k ds hl hbig
 
-/-- … and a program that compiles keeps every domain set inside the table. -/
-theorem compiled_within_limit (emit : List Char → Option Emit) (maxLen : Nat) (rules : List (List Fn × Fn))
-    (n : Nat) (h : compileSize emit maxLen rules = .ok n) :
-    ∃ ds, lowerRules emit rules 0 = .ok (n - 1, ds) ∧ 1 ≤ n ∧ ∀ i ∈ ds, i < maxLen :=
-  compileSize_ok emit maxLen rules n h
+/-- … and a program that compiles keeps every domain set inside the table and, for the traffic
+builder, has at most `maxLen` match sets in total. -/
+theorem compiled_within_limit (emit : List Char → Option Emit) (totalLimit : Bool) (maxLen : Nat)
+    (rules : List (List Fn × Fn)) (n : Nat) (h : compileSize emit totalLimit maxLen rules = .ok n) :
+    ∃ ds, lowerRules emit rules 0 = .ok (n - 1, ds) ∧ 1 ≤ n ∧ (∀ i ∈ ds, i < maxLen) ∧
+      (totalLimit = true → n ≤ maxLen) :=
+  compileSize_ok emit totalLimit maxLen rules n h
 
-example : compileSize (fun n => if n = ['d'] then some .domain else if n = ['p'] then some .perValue else none) 2
+example :
+    let emit : List Char → Option Emit := fun n => if n = ['d'] then some .domain else if n = ['p'] then some .perValue else none
+    let rules : List (List Fn × Fn) :=
       [([⟨['p'], false, [⟨[], ['8', '0']⟩, ⟨[], ['4', '4', '3']⟩]⟩], ⟨['o'], false, []⟩),
        ([⟨['d'], false, [⟨['f'], ['x']⟩]⟩], ⟨['o'], false, []⟩)]
-    = .error .oversize ∧
-    compileSize (fun n => if n = ['d'] then some .domain else if n = ['p'] then some .perValue else none) 3
-      [([⟨['p'], false, [⟨[], ['8', '0']⟩, ⟨[], ['4', '4', '3']⟩]⟩], ⟨['o'], false, []⟩),
-       ([⟨['d'], false, [⟨['f'], ['x']⟩]⟩], ⟨['o'], false, []⟩)]
-    = .ok 4 := by
-  constructor <;> rfl
+    -- 2 port sets + 1 domain set (index 2) + fallback = 4 match sets
+    compileSize emit true 4 rules = .ok 4 ∧ compileSize emit true 3 rules = .error .oversize ∧
+    compileSize emit false 3 rules = .ok 4 ∧ compileSize emit false 2 rules = .error .oversize := by
+  refine ⟨?_, ?_, ?_, ?_⟩ <;> rfl
 
 end DaeVerif.C17.Props
